@@ -263,10 +263,10 @@ def run(ctx):
     check_no_oversell(ctx, 1)
     # overbook's CPU-only bound and its shape are the obligations of C18 #1/#2
     from . import c18
-    c18.run(_Renumber(ctx, {1: 1, 2: 1, 3: 4, 4: 4, 5: 3}))
+    c18.run(_Renumber(ctx, {1: 1, 2: 1, 4: 4}, drop=(3, 5)))   # abandonment (#3) and never-suspends (#5) are C18's own
     f, s_p, qmap, ql = c12.check_queue_order(_Renumber(ctx, {1: 4}))
     c12.check_pool_choice(_Renumber(ctx, {4: 1}), f, s_p)
-    c12.check_suspension(_Renumber(ctx, {5: 3, 6: 3, 7: 3}), f, s_p, qmap)
+    c12.check_suspension(_Renumber(ctx, {5: 3, 6: 3}, drop=(7,)), f, s_p, qmap, admissibility_only=True)   # re-offer (#7) is C12's own
     check_ops(ctx, 4)
     check_flag(ctx, 5)
     c06.check_reductions(ctx, 6)
@@ -278,13 +278,16 @@ def run(ctx):
 
 
 class _Renumber:
-    """Proxy that files another property's obligations under this property's clause numbers."""
+    """Proxy that files another property's obligations under this property's clause numbers (numbers mapped to None are
+    clauses of the other property that are not part of this one and are dropped)."""
 
-    def __init__(self, ctx, table):
-        self._ctx, self._t = ctx, table
+    def __init__(self, ctx, table, drop=()):
+        self._ctx, self._t, self._drop = ctx, table, set(drop)
 
     def __getattr__(self, k):
         return getattr(self._ctx, k)
 
     def ob(self, num, *a, **kw):
+        if num in self._drop:
+            return bool(a[2]) if len(a) > 2 else True
         return self._ctx.ob(self._t.get(num, num), *a, **kw)
